@@ -6,7 +6,7 @@ import ast
 from ..cfg import cfg_of
 from ..core import (
     ancestors, assigns_to, body_walk, call_attr, call_name, calls_in, const_value, dotted, enclosing_stmt, handler_catches,
-    in_block, is_const, kwarg, names_in, nodes_of_type, parent, stores_to, unparse, walk_local, enclosing_withs, cond_holds,
+    in_block, is_const, kwarg, names_in, nodes_of_type, parent, stores_to, unparse, walk_local, enclosing_withs, cond_holds, cond_facts,
 )
 
 CP = "joblib/compressor.py"
@@ -555,6 +555,21 @@ def registry(ctx):
               "the number of leading bytes examined is not computed from the registry at call time: longer magic numbers registered later are cut off")
     ml = ctx.repo.func(NPU, "_get_prefixes_max_len")
     ctx.check(any(isinstance(r.value, ast.Call) and call_name(r.value) == "max" for r in nodes_of_type(ml, ast.Return)), ml, "enough leading bytes are looked at for the longest prefix")
+    # sniffing leaves the stream where it was: peek() does not move it, read() is undone by seek(0) on every path
+    gd = cfg_of(dc)
+    arg = dc.args.args[0].arg
+    for c in pk:
+        facts = cond_facts(gd.conditions_at(gd.nodes_of(c)))
+        if call_attr(c) == "peek":
+            ctx.check(("hasattr(%s, 'peek')" % arg, True) in facts, c, "peek() is used only on objects that have it", "peek() is called under %s" % facts)
+        else:
+            sk = [x for x in calls_in(dc) if call_name(x) == arg + ".seek" and x.args and const_value(x.args[0]) == 0]
+            ctx.check(bool(sk) and gd.every_path_from(gd.nodes_of(c), gd.nodes_of_all(sk), None, skip_exc=True), c, "a consuming read() of the magic number is undone by seek(0) before the content is handed to the reader",
+                      "the magic number is read() but the stream is not rewound on every path: the reader selected afterwards starts %s bytes into the content" % "max_prefix_len")
+            ctx.check(("hasattr(%s, 'peek')" % arg, False) in facts, c, "read()+seek(0) is the fallback for objects without peek()")
+    fb = [a for a in nodes_of_type(dc, ast.Assign) if isinstance(a.value, ast.Call) and a.value in pk]
+    ctx.check(len(fb) == len(pk) == 2 and len({a.targets[0].id for a in fb if isinstance(a.targets[0], ast.Name)}) == 1 and all(isinstance(x.func.value, ast.Name) and x.func.value.id == fb[0].targets[0].id for x in sw), fb[0] if fb else dc,
+              "both ways of sniffing feed the same comparison", "the bytes compared with the prefixes are not the sniffed ones on every path")
 
 
 MAGIC = {
@@ -662,7 +677,9 @@ def dump_flow(ctx):
     f = ctx.repo.func(NP, "dump")
     g = cfg_of(f)
     ps = [c for c in calls_in(f) if call_name(c) == "NumpyPickler"]
-    ctx.floor(len(ps), 3, "NumpyPickler constructions in dump")
+    dumps = [c for c in ps if isinstance(parent(c), ast.Attribute) and parent(c).attr == "dump" and isinstance(parent(parent(c)), ast.Call)]
+    ctx.check(bool(dumps) and g.every_path_from([g.entry], g.nodes_of_all(dumps), None, skip_exc=True), dumps[0] if dumps else f, "every normal path of dump() pickles the value (compressed writer, plain file, or file object)",
+              "dump() has a normal path that writes nothing for some kind of target")
     for c in ps:
         ctx.check(dotted(kwarg(c, "protocol", 1)) == "protocol", c, "the requested pickle protocol reaches this pickler", "protocol is not forwarded to this pickler")
         st = enclosing_stmt(c)
@@ -683,7 +700,9 @@ def dump_flow(ctx):
     ctx.check(bool(pc) and dotted(kwarg(pc[0], "protocol", 2)) == "protocol" and dotted(pc[0].args[1]) == "self.file_handle", pc[0] if pc else ni, "NumpyPickler forwards protocol and file handle to pickle._Pickler")
     ui = ctx.repo.func(NP, "NumpyUnpickler.__init__")
     uc = [c for c in calls_in(ui) if call_name(c) == "Unpickler.__init__"]
-    ctx.need(pc and uc, "pickler/unpickler base constructors not found")
+    if not (pc and uc):
+        ctx.bad(ui if not uc else ni, "the pickle base class is no longer initialised with the file handle (%s)" % ("Unpickler.__init__" if not uc else "Pickler.__init__"), key=NP + "::base constructors")
+        return
     opts_w = {k.arg: unparse(k.value) for k in pc[0].keywords if k.arg in ("fix_imports", "buffer_callback")}
     opts_r = {k.arg: unparse(k.value) for k in uc[0].keywords if k.arg in ("fix_imports", "encoding", "errors", "buffers")}
     ctx.check(opts_w.get("fix_imports") == opts_r.get("fix_imports") and "encoding" not in opts_r and "errors" not in opts_r, uc[0],
@@ -820,5 +839,11 @@ def no_swallow(ctx):
     rets = nodes_of_type(up, ast.Return)
     ld = [a for a in nodes_of_type(up, ast.Assign) if isinstance(a.value, ast.Call) and call_name(a.value) == "unpickler.load"]
     g = cfg_of(up)
-    ctx.check(bool(ld) and all(dotted(r.value) == ld[0].targets[0].id and g.every_path_to(g.nodes_of(r), g.nodes_of(ld[0]), skip_exc=True) for r in rets), ld[0] if ld else up,
-              "_unpickle returns exactly what unpickler.load() produced")
+    def origin(name, depth=0):
+        # follow plain copies `b = a` (single definition) back to the loaded variable
+        d = [a for a in nodes_of_type(up, ast.Assign) if name in stores_to(a) and not is_const(a.value, None)]
+        if len(d) == 1 and isinstance(d[0].value, ast.Name) and depth < 4:
+            return origin(d[0].value.id, depth + 1)
+        return name
+    ctx.check(bool(ld) and bool(rets) and all(dotted(r.value) is not None and origin(dotted(r.value)) == ld[0].targets[0].id and g.every_path_to(g.nodes_of(r), g.nodes_of(ld[0]), skip_exc=True) for r in rets), ld[0] if ld else up,
+              "_unpickle returns exactly what unpickler.load() produced", "_unpickle does not return, on every path, the object produced by unpickler.load()")
